@@ -29,14 +29,14 @@ def summary_of(text):
     return [l for l in text.splitlines() if ' seconds - ' in l]
 
 
-def data_check(c, r, text, loaded, opts, ou):
+def data_check(c, r, text, loaded, opts, ou, source=True):
     """every number the channel prints agrees with the saved statistics (the independent report parser of C10)"""
     import c10
     stats = []
     for k, v in loaded['timings'].items():
         path, first, name = k.rsplit('|', 2)
         stats.append([path.rsplit('/', 1)[-1], int(first), name, v])
-    case = {'files': {c['name']: r['prog_text']}, 'stats': stats, 'unit': loaded['unit'], 'output_unit': ou, 'opts': opts}
+    case = {'files': {c['name']: r['prog_text']} if source else {}, 'stats': stats, 'unit': loaded['unit'], 'output_unit': ou, 'opts': opts}
     return c10.oracle(case, {'error': None, 'text': text})
 
 
@@ -47,6 +47,9 @@ def oracle(c, r):
     ou = float(c['unit']) if c['unit'] else 1e-6
     for d in data_check(c, r, r['kernprof_view'], r['loaded'], {'stripzeros': c['z'], 'details': True, 'summarize': False, 'sort': False}, ou)[:2]:
         bad.append({'kernprof --view does not present the saved data': d})
+    if r.get('viewer_cli_nosource') is not None:
+        for d in data_check(c, r, r['viewer_cli_nosource'], r['loaded'], {'stripzeros': c['z'], 'details': True, 'summarize': False, 'sort': False}, ou, source=False)[:2]:
+            bad.append({'the viewer without the source file does not present the saved data': d})
     for d in data_check(c, r, r['live_print_stats'], r['live'], {'stripzeros': False, 'details': True, 'summarize': False, 'sort': False}, None)[:2]:
         bad.append({'live print_stats does not present the live data': d})
     if r.get('explicit_txt') and r.get('explicit_loaded'):
@@ -111,9 +114,9 @@ def run(ctx):
                             ctx.broken.append(('K11 correspondence', '%s: model rendering differs from the real %s' % (json.dumps(c), key_text)))
         nontrivial.add(json.dumps(c, sort_keys=True))
     ctx.coverage.update({
-        'evaluations': len(cs) * 7, 'distinct_nontrivial': len(nontrivial),
+        'evaluations': len(cs) * 8, 'distinct_nontrivial': len(nontrivial),
         'rule': 'sessions = 3 script names (ASCII, non-ASCII, with a space) x 6 units (none, 1e-3, 1e-6, 1e-8, 1e-9, 0.5) x skip-zero on/off (sampled in quick); per session '
-                '7 channels: kernprof --view, viewer CLI on the saved file, live print_stats, show_text on the reloaded dump, explicit .txt, timestamped .txt, '
+                '8 channels: kernprof --view, viewer CLI on the saved file, the viewer on the moved file (source not found), live print_stats, show_text on the reloaded dump, explicit .txt, timestamped .txt, '
                 'viewer -z -t -m on the explicit .lprof (+ stdout summary); every session profiles a called and a never-called function',
         'traces_validated_against_impl': len(cs) * 3 - kdiff, 'correspondence_disagreements': kdiff})
     ctx.coverage['samples'].append({'case': cs[-1], 'kernprof_view_head': (res[-1].get('kernprof_view') or '')[:600], 'loaded': res[-1].get('loaded')})
